@@ -66,7 +66,10 @@ class LinearFilter:
         X.shape = (self.coordmap.ndims[1],) + tuple(self.bshape)
         # compute kernel from these positions
         kernel = self(X, axis=0)
-        kernel = _crop(kernel)
+        kernel, corner = _crop(kernel, return_corner=True)
+        # index of the kernel centre inside the cropped kernel
+        self._kcenter = tuple(int(c) - int(m)
+                              for c, m in zip(vox_center, corner))
         self.norms = {'l2':np.sqrt((kernel**2).sum()),
                       'l1':np.fabs(kernel).sum(),
                       'l1sum':kernel.sum()}
@@ -182,8 +185,7 @@ class LinearFilter:
             _slice += 1
         gc.collect()
         slicer = tuple(
-            slice(self._kernel.shape[i] // 2,
-                  self.bshape[i] + self._kernel.shape[i] // 2)
+            slice(self._kcenter[i], self.bshape[i] + self._kcenter[i])
             for i in range(len(self.bshape)))
         _out = _out[slicer]
         if inimage.ndim == 3:
@@ -248,10 +250,10 @@ def sigma2fwhm(sigma):
     return sigma * np.sqrt(8 * np.log(2))
 
 
-def _crop(X, tol=1.0e-10):
+def _crop(X, tol=1.0e-10, return_corner=False):
     """
     Find a bounding box for support of fabs(X) > tol and returned
-    crop region.
+    crop region (and, if `return_corner`, the index of its first voxel).
     """
     aX = np.fabs(X)
     n = len(X.shape)
@@ -260,6 +262,10 @@ def _crop(X, tol=1.0e-10):
         m = [I[i].min() for i in range(n)]
         M = [I[i].max() for i in range(n)]
         slices = [slice(m[i], M[i]+1, 1) for i in range(n)]
-        return X[tuple(slices)]
+        out = X[tuple(slices)]
     else:
-        return np.zeros((1,)*n)
+        m = [(s - 1) // 2 for s in X.shape]
+        out = np.zeros((1,)*n)
+    if return_corner:
+        return out, m
+    return out
